@@ -561,12 +561,13 @@ indices before, inside and after the symlink phase of Rollback
 `exDiskRL`: `/b` (base root) with the file `/b/f` = "hello", the directory `/b/d` holding the file `/b/d/x`,
 the symlink to the file `/b/l -> "f"` and the symlink to the directory `/b/m -> "d"`; `/k` (backup root,
 empty).  The transaction `exOpsRL` overwrites `/f`, removes the link `/l` and creates `/l -> "d"` in its
-place (the link is re-targeted).  Rollback then issues 22 primitive calls:
- 0–11  `restoreFile /f` (`backup.open`, `backup.fstat`, `base.lstat`, `base.openfile` (truncating),
+place (the link is re-targeted).  Rollback then issues 23 primitive calls:
+ 0     `base.lstat /` (the root is tracked: it has to exist),
+ 1–12  `restoreFile /f` (`backup.open`, `backup.fstat`, `base.lstat`, `base.openfile` (truncating),
        `backup.read`, `base.write`, `backup.read`, `base.close`, `base.lstat` ×2, `base.chtimes`, `backup.close`),
- 12–17 `restoreSymlink /l`: `backup.lstat /l`, `base.lstat /l`, `base.remove /l`, `backup.readlink /l`,
+ 13–18 `restoreSymlink /l`: `backup.lstat /l`, `base.lstat /l`, `base.remove /l`, `backup.readlink /l`,
        `base.symlink f /l`, `base.lchown /l`,
- 18–21 the clean-up: `backup.lstat /l`, `backup.remove /l`, `backup.lstat /f`, `backup.remove /f`. -/
+ 19–22 the clean-up: `backup.lstat /l`, `backup.remove /l`, `backup.lstat /f`, `backup.remove /f`. -/
 
 def exDiskRL : MFS where
   get := fun k =>
@@ -709,58 +710,58 @@ example : OSGoodL [['b']] [['k']] wRL0.fs ∧ wRL0.infos = [] ∧
 /-- crash point BEFORE the symlink phase, in the middle of `restoreFile` (after the truncating `OpenFile`,
 before the write): the base file is empty and `/l` still is the transaction's link `-> d`; the backup holds
 "hello" and the copy `/l -> f`: the second disjunct holds for both. -/
-example : crashed (dieAfter exAfterOpsRL 4) = false ∧ crashed (exCrashRollbackRL 4) = true ∧
-    crashed (restorePart cfgRL exAfterOpsRL.infos (dieAfter exAfterOpsRL 4)).1 = true ∧
-    contentAt (exCrashRollbackRL 4).fs [['b'], ['f']] = some "" ∧
-    contentAt (exCrashRollbackRL 4).fs [['k'], ['f']] = some "hello" ∧
-    targetAt (exCrashRollbackRL 4).fs [['b'], ['l']] = some "d" ∧
-    targetAt (exCrashRollbackRL 4).fs [['k'], ['l']] = some "f" := by
+example : crashed (dieAfter exAfterOpsRL 5) = false ∧ crashed (exCrashRollbackRL 5) = true ∧
+    crashed (restorePart cfgRL exAfterOpsRL.infos (dieAfter exAfterOpsRL 5)).1 = true ∧
+    contentAt (exCrashRollbackRL 5).fs [['b'], ['f']] = some "" ∧
+    contentAt (exCrashRollbackRL 5).fs [['k'], ['f']] = some "hello" ∧
+    targetAt (exCrashRollbackRL 5).fs [['b'], ['l']] = some "d" ∧
+    targetAt (exCrashRollbackRL 5).fs [['k'], ['l']] = some "f" := by
   decide +kernel
 
 /-- crash point INSIDE the symlink phase, between the `Remove` of the entry in the way and `Symlink`
-(`n = 15`: `backup.lstat /l`, `base.lstat /l`, `base.remove /l` were executed, `backup.readlink /l` is
+(`n = 16`: `backup.lstat /l`, `base.lstat /l`, `base.remove /l` were executed, `backup.readlink /l` is
 refused): the link is ABSENT in the base, its copy `/l -> f` is still in the backup and `/l` is still in the
 tracked map Rollback began with; the file `/f` has already been restored.  A second Rollback with the
 reloaded tracked map puts `/l -> f` back and returns no error. -/
-example : crashed (exCrashRollbackRL 15) = true ∧
-    crashed (restorePart cfgRL exAfterOpsRL.infos (dieAfter exAfterOpsRL 15)).1 = true ∧
-    (exCrashRollbackRL 15).fs.get [['b'], ['l']] = none ∧
-    targetAt (exCrashRollbackRL 15).fs [['k'], ['l']] = some "f" ∧
+example : crashed (exCrashRollbackRL 16) = true ∧
+    crashed (restorePart cfgRL exAfterOpsRL.infos (dieAfter exAfterOpsRL 16)).1 = true ∧
+    (exCrashRollbackRL 16).fs.get [['b'], ['l']] = none ∧
+    targetAt (exCrashRollbackRL 16).fs [['k'], ['l']] = some "f" ∧
     (exAfterOpsRL.infos.lookup "/l".toList).isSome = true ∧
-    (exCrashRollbackRL 15).fs.get [['b'], ['f']] = exDiskRL.get [['b'], ['f']] ∧
-    (exSecondRollbackRL 15).2 = .ok false ∧
-    (exSecondRollbackRL 15).1.fs.get [['b'], ['l']] =
+    (exCrashRollbackRL 16).fs.get [['b'], ['f']] = exDiskRL.get [['b'], ['f']] ∧
+    (exSecondRollbackRL 16).2 = .ok false ∧
+    (exSecondRollbackRL 16).1.fs.get [['b'], ['l']] =
       some (.link ['f'] { mode := 0o777, uid := 0, gid := 0, mtime := .fresh }) ∧
-    (exSecondRollbackRL 15).1.fs.get [['b'], ['f']] = exDiskRL.get [['b'], ['f']] := by
+    (exSecondRollbackRL 16).1.fs.get [['b'], ['f']] = exDiskRL.get [['b'], ['f']] := by
   decide +kernel
 
-/-- crash point inside the symlink phase, between `Symlink` and `Lchown` (`n = 17`): the link is back in the
+/-- crash point inside the symlink phase, between `Symlink` and `Lchown` (`n = 18`): the link is back in the
 base with its original target text (first disjunct), the copy is still in the backup -/
-example : crashed (exCrashRollbackRL 17) = true ∧
-    crashed (restorePart cfgRL exAfterOpsRL.infos (dieAfter exAfterOpsRL 17)).1 = true ∧
-    targetAt (exCrashRollbackRL 17).fs [['b'], ['l']] = some "f" ∧
-    targetAt (exCrashRollbackRL 17).fs [['k'], ['l']] = some "f" ∧
-    targetAt (exSecondRollbackRL 17).1.fs [['b'], ['l']] = some "f" := by
+example : crashed (exCrashRollbackRL 18) = true ∧
+    crashed (restorePart cfgRL exAfterOpsRL.infos (dieAfter exAfterOpsRL 18)).1 = true ∧
+    targetAt (exCrashRollbackRL 18).fs [['b'], ['l']] = some "f" ∧
+    targetAt (exCrashRollbackRL 18).fs [['k'], ['l']] = some "f" ∧
+    targetAt (exSecondRollbackRL 18).1.fs [['b'], ['l']] = some "f" := by
   decide +kernel
 
-/-- crash point AFTER the symlink phase, in the clean-up loops (`n = 19`: after `backup.lstat /l`, before
-`backup.remove /l`; `n = 20`: after it): the restore half is not crashed, the base is completely restored —
+/-- crash point AFTER the symlink phase, in the clean-up loops (`n = 20`: after `backup.lstat /l`, before
+`backup.remove /l`; `n = 21`: after it): the restore half is not crashed, the base is completely restored —
 whether or not the copies are still there -/
-example : crashed (restorePart cfgRL exAfterOpsRL.infos (dieAfter exAfterOpsRL 19)).1 = false ∧
-    crashed (exCrashRollbackRL 19) = true ∧
-    (exCrashRollbackRL 19).fs.get [['b'], ['f']] = exDiskRL.get [['b'], ['f']] ∧
-    targetAt (exCrashRollbackRL 19).fs [['b'], ['l']] = some "f" ∧
-    ((exCrashRollbackRL 19).fs.get [['k'], ['l']]).isSome = true ∧
+example : crashed (restorePart cfgRL exAfterOpsRL.infos (dieAfter exAfterOpsRL 20)).1 = false ∧
     crashed (exCrashRollbackRL 20) = true ∧
+    (exCrashRollbackRL 20).fs.get [['b'], ['f']] = exDiskRL.get [['b'], ['f']] ∧
     targetAt (exCrashRollbackRL 20).fs [['b'], ['l']] = some "f" ∧
-    (exCrashRollbackRL 20).fs.get [['k'], ['l']] = none := by
+    ((exCrashRollbackRL 20).fs.get [['k'], ['l']]).isSome = true ∧
+    crashed (exCrashRollbackRL 21) = true ∧
+    targetAt (exCrashRollbackRL 21).fs [['b'], ['l']] = some "f" ∧
+    (exCrashRollbackRL 21).fs.get [['k'], ['l']] = none := by
   decide +kernel
 
 /-- and a crash plan that never fires: Rollback runs to its end, not crashed -/
-example : crashed (exCrashRollbackRL 23) = false ∧
-    (exCrashRollbackRL 23).fs.get [['b'], ['f']] = exDiskRL.get [['b'], ['f']] ∧
-    targetAt (exCrashRollbackRL 23).fs [['b'], ['l']] = some "f" ∧
-    (exCrashRollbackRL 23).fs.get [['k'], ['l']] = none := by
+example : crashed (exCrashRollbackRL 24) = false ∧
+    (exCrashRollbackRL 24).fs.get [['b'], ['f']] = exDiskRL.get [['b'], ['f']] ∧
+    targetAt (exCrashRollbackRL 24).fs [['b'], ['l']] = some "f" ∧
+    (exCrashRollbackRL 24).fs.get [['k'], ['l']] = none := by
   decide +kernel
 
 /-! ### the hypothesis of (3) is forced: a second Rollback after a crash can delete a never-named original
@@ -768,10 +769,10 @@ example : crashed (exCrashRollbackRL 23) = false ∧
 Same disk.  The transaction `exOpsBad` removes the directory link `/m -> d`, makes a directory `/m` in its
 place and creates `/m/x` in it: tracked map `/` (dir), `/m` (SYMLINK), `/m/x` (absent) — the tracked-absent
 path `/m/x` lies strictly below the path `/m` tracked as a symlink.  The history is covered (no operation
-traverses a symlink), and a complete Rollback restores the base.  Rollback issues 10 primitive calls:
-`base.lstat /m/x`, `base.remove /m/x`, `backup.lstat /m`, `base.lstat /m`, `base.remove /m`,
+traverses a symlink), and a complete Rollback restores the base.  Rollback issues 11 primitive calls:
+`base.lstat /` (the root is tracked: it has to exist), `base.lstat /m/x`, `base.remove /m/x`, `backup.lstat /m`, `base.lstat /m`, `base.remove /m`,
 `backup.readlink /m`, `base.symlink d /m`, `base.lchown /m` | `backup.lstat /m`, `backup.remove /m`.
-Let the process die after the 7th (the link `/m -> d` is back), the 8th, or the 9th (inside the clean-up);
+Let the process die after the 8th (the link `/m -> d` is back), the 9th, or the 10th (inside the clean-up);
 it restarts, reloads the tracked map, and calls Rollback again: the classification loop `Lstat`s the
 tracked-absent `/m/x` THROUGH the restored link, finds the original `/b/d/x`, and the removal loop
 `Remove`s it.  The never-named, untracked original `/d/x` is gone, from the base and from everywhere. -/
@@ -831,22 +832,22 @@ theorem second_rollback_after_crash_deletes_through_restored_link :
     (rollback cfgRL exAfterOpsBad).2 = .ok false ∧
     targetAt (rollback cfgRL exAfterOpsBad).1.fs [['b'], ['m']] = some "d" ∧
     contentAt (rollback cfgRL exAfterOpsBad).1.fs [['b'], ['d'], ['x']] = some "precious" ∧
-    -- Rollback dies after 7 primitive calls, in the restore half: the link is back, `/d/x` still intact …
-    crashed (restorePart cfgRL exAfterOpsBad.infos (dieAfter exAfterOpsBad 7)).1 = true ∧
-    targetAt (exCrashRollbackBad 7).fs [['b'], ['m']] = some "d" ∧
-    contentAt (exCrashRollbackBad 7).fs [['b'], ['d'], ['x']] = some "precious" ∧
+    -- Rollback dies after 8 primitive calls, in the restore half: the link is back, `/d/x` still intact …
+    crashed (restorePart cfgRL exAfterOpsBad.infos (dieAfter exAfterOpsBad 8)).1 = true ∧
+    targetAt (exCrashRollbackBad 8).fs [['b'], ['m']] = some "d" ∧
+    contentAt (exCrashRollbackBad 8).fs [['b'], ['d'], ['x']] = some "precious" ∧
     -- … and the second Rollback with the reloaded tracked map deletes it (and reports no error)
-    (exSecondRollbackBad 7).2 = .ok false ∧
-    (exSecondRollbackBad 7).1.fs.get [['b'], ['d'], ['x']] = none ∧
-    (exSecondRollbackBad 7).1.fs.get [['k'], ['d'], ['x']] = none ∧
-    -- the same for a crash after the `Lchown` and for a crash inside the clean-up half
+    (exSecondRollbackBad 8).2 = .ok false ∧
     (exSecondRollbackBad 8).1.fs.get [['b'], ['d'], ['x']] = none ∧
-    crashed (restorePart cfgRL exAfterOpsBad.infos (dieAfter exAfterOpsBad 9)).1 = false ∧
-    crashed (exCrashRollbackBad 9) = true ∧
+    (exSecondRollbackBad 8).1.fs.get [['k'], ['d'], ['x']] = none ∧
+    -- the same for a crash after the `Lchown` and for a crash inside the clean-up half
     (exSecondRollbackBad 9).1.fs.get [['b'], ['d'], ['x']] = none ∧
+    crashed (restorePart cfgRL exAfterOpsBad.infos (dieAfter exAfterOpsBad 10)).1 = false ∧
+    crashed (exCrashRollbackBad 10) = true ∧
+    (exSecondRollbackBad 10).1.fs.get [['b'], ['d'], ['x']] = none ∧
     -- whereas a crash BEFORE the link is back is harmless
-    contentAt (exSecondRollbackBad 6).1.fs [['b'], ['d'], ['x']] = some "precious" ∧
-    targetAt (exSecondRollbackBad 6).1.fs [['b'], ['m']] = some "d" := by
+    contentAt (exSecondRollbackBad 7).1.fs [['b'], ['d'], ['x']] = some "precious" ∧
+    targetAt (exSecondRollbackBad 7).1.fs [['b'], ['m']] = some "d" := by
   refine ⟨exOpsBad_covered, ?_⟩
   decide +kernel
 
@@ -855,7 +856,7 @@ theorem second_rollback_after_crash_deletes_through_restored_link :
 The flat disk and the first transaction of `Props/C01G.lean` (`Props.C01.wG0`, `opsG1`: `Create("/abs/sub/new")`
 through the directory link `/abs -> /real`, `Chmod("/d/rel/f")` through `/d/rel -> ../real/./sub`,
 `Remove("/abs/fl")` — the file link `/real/fl -> sub/f` is removed through `/abs` —, `MkdirAll("/d/rel/x/y")`).
-Rollback issues 42 primitive calls; its symlink phase (`restoreSymlink /real/fl`, nothing in the way) is
+Rollback issues 43 primitive calls (the first is `base.lstat /`: the root is tracked and has to exist); its symlink phase (`restoreSymlink /real/fl`, nothing in the way) is
 29 `backup.lstat`, 30 `base.lstat`, 31 `backup.readlink`, 32 `base.symlink sub/f /real/fl`, 33 `base.lchown`. -/
 
 /-- the hypotheses of the `…_through_flat_links_partial` theorems hold of that example -/
@@ -872,20 +873,20 @@ def exCrashRollbackG (n : Nat) : World := (rollback Props.C01.cfgG (dieAfter exA
 def exSecondRollbackG (n : Nat) : World × Except Err Bool :=
   rollback Props.C01.cfgG { exCrashRollbackG n with infos := exAfterOpsG.infos, faults := [] }
 
-/-- crash inside the symlink phase (`n = 32`: `Readlink` of the copy done, `Symlink` refused): the link
+/-- crash inside the symlink phase (`n = 33`: `Readlink` of the copy done, `Symlink` refused): the link
 `/real/fl` — removed through `/abs` by the transaction — is absent in the base, its copy is in the backup,
-the key is tracked; the second Rollback puts it back.  Crash in the clean-up (`n = 36`): the base is
+the key is tracked; the second Rollback puts it back.  Crash in the clean-up (`n = 37`): the base is
 restored. -/
-example : crashed (restorePart Props.C01.cfgG exAfterOpsG.infos (dieAfter exAfterOpsG 32)).1 = true ∧
-    (exCrashRollbackG 32).fs.get [['b'], "real".toList, "fl".toList] = none ∧
-    targetAt (exCrashRollbackG 32).fs [['k'], "real".toList, "fl".toList] = some "sub/f" ∧
+example : crashed (restorePart Props.C01.cfgG exAfterOpsG.infos (dieAfter exAfterOpsG 33)).1 = true ∧
+    (exCrashRollbackG 33).fs.get [['b'], "real".toList, "fl".toList] = none ∧
+    targetAt (exCrashRollbackG 33).fs [['k'], "real".toList, "fl".toList] = some "sub/f" ∧
     (exAfterOpsG.infos.lookup "/real/fl".toList).isSome = true ∧
     targetAt Props.C01.wG0.fs [['b'], "real".toList, "fl".toList] = some "sub/f" ∧
-    (exSecondRollbackG 32).2 = .ok false ∧
-    targetAt (exSecondRollbackG 32).1.fs [['b'], "real".toList, "fl".toList] = some "sub/f" ∧
-    crashed (restorePart Props.C01.cfgG exAfterOpsG.infos (dieAfter exAfterOpsG 36)).1 = false ∧
-    crashed (exCrashRollbackG 36) = true ∧
-    targetAt (exCrashRollbackG 36).fs [['b'], "real".toList, "fl".toList] = some "sub/f" := by
+    (exSecondRollbackG 33).2 = .ok false ∧
+    targetAt (exSecondRollbackG 33).1.fs [['b'], "real".toList, "fl".toList] = some "sub/f" ∧
+    crashed (restorePart Props.C01.cfgG exAfterOpsG.infos (dieAfter exAfterOpsG 37)).1 = false ∧
+    crashed (exCrashRollbackG 37) = true ∧
+    targetAt (exCrashRollbackG 37).fs [['b'], "real".toList, "fl".toList] = some "sub/f" := by
   decide +kernel
 
 end Props.C02
